@@ -10,6 +10,9 @@ use std::sync::atomic::{
 /// Unlocked: false; locked: true
 #[inline(always)]
 pub fn lock(flag: &AtomicBool) {
+    // verification builds: wait for the flag at scheduler yield points (the acquisition itself is done by the code below)
+    #[cfg(feature = "verif")]
+    while crate::verif::participates() && flag.load(Relaxed) { vp!("sync.spin"); }
     // attempt to lock -- spinning for 10 times, relaxing the CPU between attempts
     if flag.compare_exchange_weak(false, true, Acquire, Relaxed).is_ok() { return } else { std::hint::spin_loop(); std::hint::spin_loop(); std::hint::spin_loop(); std::hint::spin_loop() }
     if flag.compare_exchange_weak(false, true, Acquire, Relaxed).is_ok() { return } else { std::hint::spin_loop(); std::hint::spin_loop(); std::hint::spin_loop(); std::hint::spin_loop() }
@@ -29,4 +32,5 @@ pub fn lock(flag: &AtomicBool) {
 #[inline(always)]
 pub fn unlock(flag: &AtomicBool) {
     flag.store(false, Release);
+    vp!("sync.unlocked");
 }
